@@ -37,6 +37,11 @@ class InMemoryMessageBroker(MessageBrokerT):
         logger.debug("Enqueueing message with id: {id_}.", extra={"id_": key.id_})
         await asyncio.sleep(0)
 
+        self._put_in_queue(key, payload, params)
+
+        await asyncio.sleep(0)
+
+    def _put_in_queue(self, key: RoutingKeyT, payload: str, params: ParametersT | None) -> None:
         delay: datetime | None = wait_until(params)
 
         msg = Message(key, payload, params or self.PARAMETERS_CLASS())
@@ -44,8 +49,6 @@ class InMemoryMessageBroker(MessageBrokerT):
             self.queues[key.queue].delayed.setdefault(delay, []).append(msg)
         else:
             self.queues[key.queue].simple.put_nowait(msg)
-
-        await asyncio.sleep(0)
 
     async def reject(self, key: RoutingKeyT) -> None:
         logger.debug("Rejecting message with id: {id_}.", extra={"id_": key.id_})
@@ -92,8 +95,18 @@ class InMemoryMessageBroker(MessageBrokerT):
         params: ParametersT | None = None,
     ) -> None:
         logger.debug("Requeueing message with id: {id_}.", extra={"id_": key.id_})
-        await self.ack(key)
-        await self.enqueue(key, payload, params)
+        await asyncio.sleep(0)
+
+        # the held message is replaced without a suspension point in between,
+        # so that a cancellation can not lose it
+        q = self.queues[key.queue]
+        for msg in q.processing:
+            if msg.key.id_ == key.id_:
+                q.processing.remove(msg)
+                break
+        self._put_in_queue(key, payload, params)
+
+        await asyncio.sleep(0)
 
     async def queue_declare(self, queue_name: str) -> None:
         logger.debug("Declaring queue '{queue_name}'.", extra={"queue_name": queue_name})
